@@ -96,6 +96,14 @@ def run_case(case, env, res, tmpdir, state):
     if how == "iterate" and case["source"] == "anim":
         return run_iterate(case, image, env, res, cols, rows)
     W, H = image.rendered_size
+    if case.get("cell2"):
+        # the font changes (same number of columns and lines, other cell size) after the
+        # size has been asked for once: what is advertised now is what counts
+        set_terminal(env, cols, rows, *case["cell2"], tuple(case.get("px_extra", (0, 0))))
+        if "ratio" in case:
+            term_image.set_cell_ratio(case["ratio"])
+        W, H = image.rendered_size
+        res.count("renders after a cell-size change on an unchanged terminal size")
     # the size is advertised in three places
     if (image.rendered_width, image.rendered_height) != (W, H):
         res.violation("C01:%s:advertised-size" % case["style"], "rendered_width x rendered_height = %s x %s, rendered_size = %s (size setting %r, source %s)" % (image.rendered_width, image.rendered_height, (W, H), image.size, case.get("src")), case)
@@ -265,6 +273,7 @@ def gen_random(rnd, persona):
         style=style,
         term=[cols, rows],
         cell=[cw, ch],
+        cell2=[rnd.randint(1, 30), rnd.randint(1, 40)] if rnd.random() < 0.15 else None,
         px_extra=[rnd.randint(0, cw - 1) if rnd.random() < 0.3 else 0, rnd.randint(0, ch - 1) if rnd.random() < 0.3 else 0],
         src=list(src),
         mode=rnd.choice(MODES),
